@@ -675,6 +675,52 @@ def step(dl, ref, op, U, acc, ctx):
                     f"the list returned by {op[0]} is incoherent: {e2[0]}",
                     witness(e2[:6]),
                 )
+    if ok and hasattr(res, "get_by_id") and res is not dl:
+        # a list derived from this one (copy, slice, +, union, query ...) is a list of its own: editing it
+        # leaves the source alone, and it stays what it was when the source is edited later on
+        probe = _Obj()("zz_probe")
+        src = list(list.__iter__(dl))
+        was = list(list.__iter__(res))
+        try:
+            res.append(probe)
+            if len(was):
+                res.pop(0)
+        except Exception:
+            pass
+        acc.count("derived_list_independence_probes")
+        e3 = coherence_errors(dl, U.ids)
+        now = list(list.__iter__(dl))
+        if e3 or len(now) != len(src) or any(a is not b for a, b in zip(now, src)):
+            ok = False
+            acc.violation(
+                f"C15/{op[0]}/result-shares-state-with-the-source/{mech}",
+                f"editing the list returned by {op[0]} (append, pop) changed or corrupted the list it came from: {e3[0] if e3 else 'contents differ'}",
+                witness(e3[:6] or "contents differ"),
+            )
+        else:
+            # keep the derived list (back in its original state) under observation while the source is edited
+            try:
+                res.remove(probe)
+                if len(was):
+                    res.insert(0, was[0])
+            except Exception:
+                pass
+            kept = U.__dict__.setdefault("derived", [])
+            kept.append((op[0], res, list(list.__iter__(res))))
+            del kept[:-2]
+    for kind0, d, snap in list(U.__dict__.get("derived", [])) if ok and op[0] not in ("copy", "deepcopy", "pickle", "ctor") else []:
+        acc.count("derived_lists_rechecked_after_source_edit")
+        e4 = coherence_errors(d, U.ids)
+        cur = list(list.__iter__(d))
+        if e4 or len(cur) != len(snap) or any(a is not b for a, b in zip(cur, snap)):
+            ok = False
+            U.__dict__["derived"] = []
+            acc.violation(
+                f"C15/{kind0}/result-changes-when-the-source-is-edited/{op[0]}",
+                f"a list obtained earlier by {kind0} changed or lost coherence when {op[0]} was applied to the list it came from: {e4[0] if e4 else 'contents differ'}",
+                witness(e4[:6] or "derived list contents differ"),
+            )
+            break
     if ok and op[0] == "pop" and res is not exp_res:
         ok = False
         acc.violation(
